@@ -54,7 +54,12 @@ func genConcurrent(ctx *Ctx, emit func(Case)) {
 	kr := basic.NewKeyring()
 	bk, _ := kr.GenerateBoxKey()
 	sk, _ := kr.GenerateSigningKey()
-	roundTrips := func(id int) string {
+	roundTrips := func(id int) (res string) {
+		defer func() { // a corrupted shared state may make the library panic: that is a failed round trip
+			if x := recover(); x != nil {
+				res = fmt.Sprintf("panic: %v", x)
+			}
+		}()
 		pt := bytes.Repeat([]byte{byte(id)}, 100+id)
 		c, err := saltpack.EncryptArmor62Seal(saltpack.CurrentVersion(), pt, *bk, []saltpack.BoxPublicKey{bk.GetPublicKey()}, "")
 		if err != nil {
